@@ -80,7 +80,10 @@ def run_scenario(sc: dict[str, Any]) -> dict[str, Any]:
                      'asap': kopf.lifecycles.asap}[sc.get('lifecycle', 'asap')]
 
         # one function object per handler id, shared by all its decorators and by all incarnations
-        fns = {h: sim.handler(h, hs[h]['script'], kind='change') for h in order}
+        # (scenario flag `sync`: the handlers are plain functions, run by kopf in threads of the executor - virtual threads here)
+        smode = sc.get('sync', '')
+        fns = {h: sim.handler(h, hs[h]['script'], kind='change', sync=(smode == 'all' or (smode == 'mixed' and h in ('a', 'c', 'r'))))
+               for h in order}
 
         def registry():
             reg = sim.registry()
@@ -465,6 +468,7 @@ def gen_scenarios(seed: int, n: int, profile: str) -> list[dict[str, Any]]:
               'ctimeout': rnd.choice([5, 5, 2, 3]) if profile == 'consistency' else 5,
               'init': {'x': 1, 'on': not (profile == 'stealth' and rnd.random() < 0.6)},
               'env': env, 'end': t + 80, 'tail_from': t + 60, 'profile': profile,
+              'sync': 'all' if i % 5 == 3 else 'mixed' if i % 10 == 7 else '',     # synchronous (threaded) handlers
               'drs': i % 6 == 5}        # every sixth history is about a ReplicaSet owned by a Deployment (marked progress keys)
         out.append(sc)
     return out
